@@ -15,6 +15,12 @@ CLAIMED = {
     design_ref="DESIGN.md §5.10",
     note="Trusted: Coq kernel + VM; Model/M_Arith.v transcription; astropy's unit algebra and numpy broadcasting are dependencies (the harness broadcasts the operand before the model sees it); the uncertainty of a power is not part of the property and is not compared; fractional exponents are checked by the direct oracle only.",
     technique="Coq proof over hand-written Gallina model + vm_compute correspondence check"),
+ "C20": dict(
+    category="proof",
+    text="Coq theorems: C20_decision (a request is accepted exactly when the algorithm is known, adaptive / exact get a 2-D celestial target, the physical types agree in order and an output shape is available; the output shape is shape_out, else the target's own), C20_value / C20_footprint (for a target that is the source grid shifted by whole pixels, with ANY shapes and shift: every target element holds the source value at the coinciding element and nothing / footprint 0 where there is none), C20_same_world / C20_same_world_unique (the coinciding element is the one, and the only one, at the same world position), C20_identity. Tied to /repo by an exact correspondence check (decision, output shape, values and footprint for shifted linear FITS grids, carried unit / meta / global coords / target wcs) on 2-4-D cubes, targets as WCS / low-level wrapper / header / dict, all algorithm names, shape_out given / from target / missing / (), plus a direct oracle through the WCS world positions incl. TAN celestial cubes with the exact algorithm, rescaled targets, and source-unchanged snapshots.",
+    design_ref="DESIGN.md §5.20",
+    note="Trusted: Coq kernel + VM; Model/M_Reproject.v transcription; the regridding is the reproject package (dependency: on coinciding grids it returns the source value, no value without coverage - validated by every run, values canonicalised to the 1/2 grid of the payload within 1e-6); adaptive resampling smooths, so only its refusals, shape and attributes are checked.",
+    technique="Coq proof over hand-written Gallina model + vm_compute correspondence check"),
  "C17": dict(
     category="proof",
     text="Coq theorems for ANY number of cubes sharing one coordinate structure: C17_structure (common_axis_coords = one entry per coordinate object with a component on the common axis, each the concatenation in cube order of the object's slices along the common axis; includes the alignment of array_indices_for_world_objects with axis_world_coords), C17_length (as many entries as the cube-like length, ragged lengths included), C17_kth (entry k = cube j's coordinate at position i, (j,i) located by C12's index arithmetic), C17_entry (every entry of that slice is the WCS value at the pixel whose common-axis coordinate is i, whichever dimension of the coordinate array the common axis is), C17_sequence_axis_sound/complete (exactly the names on every cube, per-cube values in order). Tied to /repo by an exact correspondence check on sequences of 1-4 cubes over integer probe WCS with random correlation structures, grouped objects, linear extra coords, ragged common axes on any cube axis, user-added and slicing-produced global coords, plus a direct full-grid oracle incl. FITS TAN / rotated families.",
